@@ -322,4 +322,3 @@ func Fprintln(w io.Writer, a ...interface{}) (int, error) {
 func Printf(format string, a ...interface{}) (int, error) { return 0, nil }
 func Println(a ...interface{}) (int, error)               { return 0, nil }
 func Print(a ...interface{}) (int, error)                 { return 0, nil }
-
